@@ -380,6 +380,18 @@ func main() {
 
 	if *replay != "" {
 		rf, crashed, exit, stderr := runReplay(*replay, false, 0)
+		// The schedule of a replay is exact; whether the race detector reports a
+		// race it meets on the way is not: it keeps a few shadow cells per word and
+		// evicts among them at random.  A file recorded as a data race is therefore
+		// re-executed until the report appears (the schedule is the same each time).
+		if !crashed && rf != nil && rf.Class == "" {
+			var want replayFile
+			if b, err := os.ReadFile(*replay); err == nil && json.Unmarshal(b, &want) == nil && want.Class == "data-race" {
+				for attempt := 0; attempt < 12 && !crashed && rf != nil && rf.Class == ""; attempt++ {
+					rf, crashed, exit, stderr = runReplay(*replay, false, 0)
+				}
+			}
+		}
 		if crashed {
 			class, key, detail := crashClass(exit, stderr)
 			fmt.Printf("replay: worker died: class=%s key=%s\n%s\n", class, key, detail)
@@ -670,6 +682,24 @@ func main() {
 			rf.Note = "worker process died during this run; replay re-executes run_index from the seed"
 			writeJSON(rpath, rf)
 			res := runChunk(100000+reported, v.Index, v.Index+1, false)
+			if v.Class == "data-race" {
+				// same schedule every time, but the race detector's report is sampled
+				// (random eviction among its shadow cells): look again a few times
+				for attempt := 0; attempt < 12 && !res.crashed; attempt++ {
+					res = runChunk(100000+reported, v.Index, v.Index+1, false)
+				}
+				if !res.crashed {
+					// A report of the race detector is sound whether or not it shows
+					// again: report it, with the original report as the detail.
+					rf.Note = "data race reported by the race detector inside a batch of runs; 13 re-executions of the run alone (same schedule) did not produce the report again: the detector samples (random eviction among shadow cells), its reports are nevertheless sound"
+					writeJSON(rpath, rf)
+					fmt.Printf("violation class=%s key=%s occurrences=%d first_run=%d\n  %s\n", v.Class, v.Key, agg.ViolCount[ck], v.Index, strings.ReplaceAll(firstLines(rf.Detail, 12), "\n", "\n  "))
+					violLines = append(violLines, fmt.Sprintf("VIOLATION property=%s replay=%s", propID, rpath))
+					violations++
+					reported++
+					continue
+				}
+			}
 			if !res.crashed && (strings.Contains(v.Key, "out of memory") || strings.Contains(v.Key, "cannot allocate") || v.Key == "exit--1") {
 				// running out of memory depends on what the earlier runs of the same
 				// worker left on the heap; the crash itself is the evidence.  The
